@@ -9,10 +9,26 @@ CITED, not re-proved: CMS (JMLR 2011) Theorem 9 — objective perturbation with 
 ε-differentially private for a loss with |ℓ''| ≤ c and rows of norm ≤ 1 (here: rows of norm ≤ s, loss rescaled).  What is
 proved here is that the code's parameters ARE those of Algorithm 2 (`cms_rule_as_printed`) and satisfy its accounting
 identity (`cms_calibration`).
-NOT proved (validated statistically by the harness): ‖b‖ ~ Gamma(d, 2s/ε′) from four Gamma(d/4) draws, and the
-direction of b uniform on the sphere.
+PROVED about the law of the noise vector b, on the real-number model, for INPUT draws with the ideal laws (independent
+`Gamma(d/4, 1)` unit gammas = Mathlib's `gammaMeasure`, independent N(0,1) = `gaussianReal 0 1`):
+  §5  `noise_norm_law` / `fit_noise_norm_law` — `noisy_norm` (four gamma draws) ~ Gamma(shape d, rate ε′/(2s)), i.e. scale
+      2s/ε′, in both branches of the rule, generically and at the logistic-regression call site;
+      `noise_vector_norm_law` — the same for the Euclidean norm ‖b‖ of the model's noise vector, whatever the direction draws;
+  §6  `direction_coordinate_law`, `direction_coordinates_iid` — the direction vector is d i.i.d. N(0,1);
+      `direction_rotation_invariant`, `direction_on_sphere` — its normalisation has a rotation-invariant law on the sphere;
+      `sphere_invariant_measure_unique` — such a law is unique (not in Mathlib; proved here with characteristic functions);
+      `direction_uniform` — hence b/‖b‖ is uniform on the sphere (= normalised surface measure `Measure.toSphere`);
+      `noise_vector_law` / `fit_noise_vector_law` — b ~ r·u, u uniform on the sphere, r ~ Gamma(d, rate ε′/(2s)) independent
+      (independence is by construction: norm and direction use separate draws, i.e. the input is a product measure);
+      `direction_model_bridge`, `noise_vector_model_bridge` — the List ℝ model is the Euclidean vector, by coordinates.
+NOT proved (validated statistically by the harness): that CPython's `random.gammavariate(d/4, ·)` / `normalvariate(0, 1)`
+(on the rng the mechanism holds) produce draws with those Gamma / Normal laws, independent from call to call; and that the
+floating-point evaluation does not distort them (the theorems are about the model over ℝ).  No measure is put on
+`List ℝ`: the vector law is stated in `EuclideanSpace ℝ (Fin d)` and tied to the model's lists pointwise by the two bridges.
 -/
 import DPL.Proofs.SamplersLogReg
+import DPL.Proofs.SamplersNoiseNorm
+import DPL.Proofs.SamplersNoiseNormJoint
 
 namespace DPL.C17
 open DPL DPL.Smp DPL.LogReg
@@ -211,5 +227,283 @@ theorem perturbation_gradient (b w h : List ℝ) (delta : ℝ) (n : Nat) (h1 : b
     dot_comm (List.zipWith (· + ·) w h) h, dot_add_right w w h h2, dot_add_right h w h h2,
     dot_zipWith_left b w h _ _ h1 h2, dot_comm h w]
   ring
+
+/-! ### 5. the law of the noise norm -/
+
+/-- consequence of `cms_calibration` for `s > 0`: the gamma scale is positive and its inverse is the rate `ε′/(2s)` -/
+theorem calib_scale_rate (eps c s alpha : ℝ) (n : Nat) (he : 0 < eps) (hc : 0 ≤ c) (hs : 0 < s) (ha : 0 < alpha)
+    (hn : 0 < n) :
+    0 < (vectorCalib eps c s alpha n).scale ∧
+    1 / (vectorCalib eps c s alpha n).scale = (vectorCalib eps c s alpha n).epsP / (2 * s) := by
+  obtain ⟨h1, -, -, h4⟩ := cms_calibration eps c s alpha n he hc hs.le ha hn
+  refine ⟨?_, ?_⟩
+  · rw [h4]; exact div_pos (by positivity) h1
+  · rw [h4, one_div, inv_div]
+
+/-- at the call site every hypothesis of the calibration holds: `ε/k > 0`, `c = ¼ ≥ 0`, `α = 1/C > 0`, and — with an
+intercept always, without one when `0 < data_norm` and `0 < n_features` — `s > 0` and `dim ≥ 1` -/
+theorem call_site_positive (eps C norm : ℝ) (k dim n : Nat) (ic : Bool) (he : 0 < eps) (hC : 0 < C) (hk : 2 ≤ k)
+    (hpos : ic = false → 0 < norm ∧ 0 < dim) :
+    let cs : CallSite ℝ := callSite eps C norm k dim n ic
+    0 < cs.eps ∧ 0 ≤ cs.c ∧ 0 < cs.s ∧ 0 < cs.alpha ∧ 0 < cs.dim := by
+  intro cs
+  have hkR : (0 : ℝ) < (numProblems k : ℝ) := by
+    unfold numProblems; split_ifs <;> simp; omega
+  have hs : 0 < cs.s := by
+    simp only [cs, callSite, dataNorm']
+    split_ifs with h
+    · simp only [transc_sqrt, transc_pow]
+      apply Real.sqrt_pos.mpr
+      have h2 : norm ^ (2 : ℝ) = norm ^ 2 := by norm_num
+      rw [h2]; positivity
+    · exact (hpos (by simpa using h)).1
+  have hd : 0 < cs.dim := by
+    simp only [cs, callSite]
+    split_ifs with h
+    · omega
+    · have := (hpos (by simpa using h)).2
+      omega
+  have hal : 0 < cs.alpha := by simp only [cs, callSite]; positivity
+  have hc : 0 ≤ cs.c := by simp only [cs, callSite]; norm_num
+  have hek : 0 < cs.eps := by simp only [cs, callSite, perProblemEps]; positivity
+  exact ⟨hek, hc, hs, hal, hd⟩
+
+/-- non-vacuity of `hpos`: without an intercept and with `data_norm = 0` the sensitivity `s` IS 0 (no gamma law) -/
+example : (callSite (1 : ℝ) 1 0 2 3 10 false).s = 0 := by simp [callSite, dataNorm']
+
+open MeasureTheory ProbabilityTheory in
+/-- **‖b‖ ~ Gamma(d, scale 2s/ε′)** in BOTH branches of the rule: `noisy_norm = sum(gammavariate(d/4, scale) for _ in
+range(4))` — the model's `vecNorm K.scale` of four independent unit gammas `Gamma(d/4, rate 1)` — has the law
+`Gamma(shape d, rate ε′/(2s))` with the `ε′` the rule actually chose (`K.epsP`), which is what CMS Algorithm 2 asks of
+the norm of `b`.  (`gammaMeasure a r` is Mathlib's gamma law with shape `a` and RATE `r`.) -/
+theorem noise_norm_law (eps c s alpha : ℝ) (n : Nat) (d : ℝ) (he : 0 < eps) (hc : 0 ≤ c) (hs : 0 < s)
+    (ha : 0 < alpha) (hn : 0 < n) (hd : 0 < d) :
+    let K := vectorCalib eps c s alpha n
+    ((gammaMeasure (d / 4) 1).prod ((gammaMeasure (d / 4) 1).prod ((gammaMeasure (d / 4) 1).prod
+        (gammaMeasure (d / 4) 1)))).map
+      (fun g : ℝ × ℝ × ℝ × ℝ => vecNorm K.scale [g.1, g.2.1, g.2.2.1, g.2.2.2])
+      = gammaMeasure d (K.epsP / (2 * s)) := by
+  intro K
+  obtain ⟨hscale, hrate⟩ := calib_scale_rate eps c s alpha n he hc hs ha hn
+  rw [← hrate]
+  exact gamma_sum_map d K.scale hd hscale
+
+/-- non-vacuity: the hypotheses hold in the fallback branch (the parameters of the example of §1) … -/
+example := noise_norm_law (1 / 10) (1 / 4) 1 1 1 4 (by norm_num) (by norm_num) (by norm_num) (by norm_num)
+  (by norm_num) (by norm_num)
+
+/-- … and in the plain branch, where (c = 0) the rate is `ε/(2s)` itself -/
+example : (vectorCalib (1 : ℝ) 0 1 1 1).epsP / (2 * 1) = 1 / 2 ∧ (vectorCalib (1 : ℝ) 0 1 1 1).scale = 2 := by
+  norm_num [vectorCalib]
+
+open MeasureTheory ProbabilityTheory in
+/-- the same at the logistic-regression call site: in every one-vs-rest problem of a fit the norm of the noise vector
+has the law `Gamma(dim, rate ε′/(2s))` with `dim = n_features (+1 with an intercept)`, `s = data_sensitivity` and `ε′`
+the fit's own `epsilon_p`.  With an intercept `s = √(norm²+1) > 0` and `dim ≥ 1` always; without one, `0 < norm` and
+`0 < n_features` are needed. -/
+theorem fit_noise_norm_law (eps C norm : ℝ) (k dim n : Nat) (ic : Bool) (he : 0 < eps) (hC : 0 < C)
+    (hnorm : 0 ≤ norm) (hk : 2 ≤ k) (hn : 0 < n) (hpos : ic = false → 0 < norm ∧ 0 < dim) :
+    let cs : CallSite ℝ := callSite eps C norm k dim n ic
+    let K := fitCalib eps C norm k dim n ic
+    ((gammaMeasure ((cs.dim : ℝ) / 4) 1).prod ((gammaMeasure ((cs.dim : ℝ) / 4) 1).prod
+        ((gammaMeasure ((cs.dim : ℝ) / 4) 1).prod (gammaMeasure ((cs.dim : ℝ) / 4) 1)))).map
+      (fun g : ℝ × ℝ × ℝ × ℝ => vecNorm K.scale [g.1, g.2.1, g.2.2.1, g.2.2.2])
+      = gammaMeasure (cs.dim : ℝ) (K.epsP / (2 * cs.s)) := by
+  intro cs K
+  obtain ⟨hek, hc, hs, hal, hd⟩ := call_site_positive eps C norm k dim n ic he hC hk hpos
+  exact noise_norm_law cs.eps cs.c cs.s cs.alpha cs.n (cs.dim : ℝ) hek hc hs hal hn (by exact_mod_cast hd)
+
+/-- non-vacuity, both intercept settings (ε = 1, C = 1, data_norm = 1, two classes, three features, ten samples) -/
+example := fit_noise_norm_law 1 1 1 2 3 10 true (by norm_num) (by norm_num) (by norm_num) (by norm_num)
+  (by norm_num) (by simp)
+example := fit_noise_norm_law 1 1 1 2 3 10 false (by norm_num) (by norm_num) (by norm_num) (by norm_num)
+  (by norm_num) (by simp)
+
+open MeasureTheory ProbabilityTheory in
+/-- **the Euclidean norm of the noise vector itself** — `np.linalg.norm` of the model's
+`vecNoise K.scale normals gammas = direction / ‖direction‖ · noisy_norm` — has the law `Gamma(d, rate ε′/(2s))` for EVERY
+fixed non-degenerate outcome of the direction draws: a gamma draw is a.s. ≥ 0, so `‖b‖ = noisy_norm` almost surely
+(`vecNoise_norm_eq`).  In particular the law of ‖b‖ does not depend on the direction draws. -/
+theorem noise_vector_norm_law (eps c s alpha : ℝ) (n : Nat) (d : ℝ) (he : 0 < eps) (hc : 0 ≤ c) (hs : 0 < s)
+    (ha : 0 < alpha) (hn : 0 < n) (hd : 0 < d) (normals : List ℝ) (hdir : norm2 (vecDir normals) ≠ 0) :
+    let K := vectorCalib eps c s alpha n
+    ((gammaMeasure (d / 4) 1).prod ((gammaMeasure (d / 4) 1).prod ((gammaMeasure (d / 4) 1).prod
+        (gammaMeasure (d / 4) 1)))).map
+      (fun g : ℝ × ℝ × ℝ × ℝ => norm2 (vecNoise K.scale normals [g.1, g.2.1, g.2.2.1, g.2.2.2]))
+      = gammaMeasure d (K.epsP / (2 * s)) := by
+  intro K
+  obtain ⟨hscale, hrate⟩ := calib_scale_rate eps c s alpha n he hc hs ha hn
+  rw [← hrate]
+  exact gamma_sum_map_noise d K.scale hd hscale normals hdir
+
+/-- non-vacuity: four draws equal to 1 give the direction `[2]`, of norm 2 -/
+example : norm2 (vecDir [(1 : ℝ), 1, 1, 1]) ≠ 0 := by
+  simp only [vecDir, norm2, sumSq, List.foldl, transc_sqrt]
+  rw [Real.sqrt_ne_zero'] ; norm_num
+
+/-! ### 6. the direction of the noise, and the law of the whole noise vector
+
+`normed_noisy_vector = np.reshape(normals, (-1, 4)).sum(axis=1) / 2` (the model's `vecDir`): coordinate `i` is
+`(n₄ᵢ + n₄ᵢ₊₁ + n₄ᵢ₊₂ + n₄ᵢ₊₃)/2` of its OWN four `normalvariate(0,1)` draws (`direction_draws`), hence standard normal
+(`direction_coordinate_law`); the coordinates use disjoint draws, so the direction vector is `d` i.i.d. N(0,1)
+(`direction_coordinates_iid`), i.e. `stdGaussian (EuclideanSpace ℝ (Fin d))` read by coordinates (Mathlib's
+`map_pi_eq_stdGaussian`, used in `direction_iid_law`).  The bridge `List ℝ ↔ EuclideanSpace` is by coordinates
+(`direction_model_bridge`, `noise_vector_model_bridge`).  `unitDir x = ‖x‖⁻¹ • x`, `half4 n = (n₁+n₂+n₃+n₄)/2` and
+`quad n = [n₁,n₂,n₃,n₄]` are defined in `DPL/Proofs/SamplersNoiseNorm*.lean`. -/
+
+open MeasureTheory ProbabilityTheory
+
+/-- every coordinate of the direction consumes its own four normal draws; on `4·d` draws grouped in fours the direction
+is the list of the `d` half-sums -/
+theorem direction_draws (a b c d : ℝ) (rest : List ℝ) (l : List (ℝ × ℝ × ℝ × ℝ)) :
+    vecDir (a :: b :: c :: d :: rest) = (a + b + c + d) / 2 :: vecDir rest ∧
+    vecDir (l.flatMap quad) = l.map half4 :=
+  ⟨vecDir_cons4 a b c d rest, vecDir_flatMap l⟩
+
+/-- `(n₁+n₂+n₃+n₄)/2` of four independent standard normals is standard normal -/
+theorem direction_coordinate_law :
+    ((gaussianReal 0 1).prod ((gaussianReal 0 1).prod ((gaussianReal 0 1).prod (gaussianReal 0 1)))).map
+      (fun n : ℝ × ℝ × ℝ × ℝ => (n.1 + n.2.1 + n.2.2.1 + n.2.2.2) / 2) = gaussianReal 0 1 :=
+  gauss4_half_map
+
+/-- `d` groups of four independent standard normals give `d` INDEPENDENT standard normal coordinates -/
+theorem direction_coordinates_iid (d : ℕ) :
+    (Measure.pi fun _ : Fin d =>
+        (gaussianReal 0 1).prod ((gaussianReal 0 1).prod ((gaussianReal 0 1).prod (gaussianReal 0 1)))).map
+      (fun x i => half4 (x i)) = Measure.pi fun _ : Fin d => gaussianReal 0 1 :=
+  gauss4_half_pi d
+
+/-- the model's `norm2` is the Euclidean norm, and the model's unit direction `v / ‖v‖` (which `vecNoise` multiplies by
+`noisy_norm`) is `unitDir x = ‖x‖⁻¹ • x` of `EuclideanSpace ℝ (Fin d)`, coordinate by coordinate -/
+theorem direction_model_bridge {d : ℕ} (x : Fin d → ℝ) :
+    norm2 (List.ofFn x) = ‖(WithLp.toLp 2 x : EuclideanSpace ℝ (Fin d))‖ ∧
+    (List.ofFn x).map (fun c => c / norm2 (List.ofFn x))
+      = List.ofFn (fun i => (unitDir (WithLp.toLp 2 x : EuclideanSpace ℝ (Fin d))) i) :=
+  ⟨norm2_ofFn x, modelDir_ofFn x⟩
+
+/-- the direction of `d` i.i.d. N(0,1) coordinates has the law of the direction of a standard Gaussian vector -/
+theorem direction_iid_law (d : ℕ) :
+    (Measure.pi (fun _ : Fin d => gaussianReal 0 1)).map
+        (fun x => unitDir (WithLp.toLp 2 x : EuclideanSpace ℝ (Fin d)))
+      = (stdGaussian (EuclideanSpace ℝ (Fin d))).map unitDir := by
+  rw [← map_pi_eq_stdGaussian, Measure.map_map measurable_unitDir (by fun_prop)]
+  rfl
+
+/-- **rotation invariance**: the law of the direction `x/‖x‖` of a standard Gaussian vector is invariant under every
+linear isometry (rotation or reflection) `f` of the space — because `dir (f x) = f (dir x)` and the standard Gaussian is
+itself invariant (`stdGaussian_map`). -/
+theorem direction_rotation_invariant (d : ℕ)
+    (f : EuclideanSpace ℝ (Fin d) ≃ₗᵢ[ℝ] EuclideanSpace ℝ (Fin d)) :
+    ((stdGaussian (EuclideanSpace ℝ (Fin d))).map unitDir).map f
+      = (stdGaussian (EuclideanSpace ℝ (Fin d))).map unitDir :=
+  stdGaussian_dir_map f
+
+/-- the direction is almost surely a unit vector (a standard Gaussian vector in dimension ≥ 1 is a.s. non-zero): its law
+is a probability measure carried by the unit sphere -/
+theorem direction_on_sphere (d : ℕ) (hd : 0 < d) :
+    (stdGaussian (EuclideanSpace ℝ (Fin d))).map unitDir (Metric.sphere (0 : EuclideanSpace ℝ (Fin d)) 1)ᶜ = 0 ∧
+    IsProbabilityMeasure ((stdGaussian (EuclideanSpace ℝ (Fin d))).map unitDir) := by
+  have : Nonempty (Fin d) := ⟨⟨0, hd⟩⟩
+  have : Nontrivial (EuclideanSpace ℝ (Fin d)) := inferInstance
+  exact ⟨stdGaussian_dir_sphere, Measure.isProbabilityMeasure_map measurable_unitDir.aemeasurable⟩
+
+/-- the sphere statement needs `0 < d`: the zero vector has no direction (`unitDir 0 = 0`) -/
+example : unitDir (0 : EuclideanSpace ℝ (Fin 3)) = 0 := by simp [unitDir]
+
+/-- **uniqueness of the rotation-invariant law on the sphere** (not in Mathlib; proved in
+`DPL/Proofs/SamplersNoiseNormUnique.lean` with characteristic functions: two vectors of equal norm are exchanged by a
+reflection, so the characteristic function of an invariant measure is radial; averaging it over the other measure gives
+an expression symmetric in the two measures by Fubini): a probability measure carried by the unit sphere of a
+finite-dimensional real inner product space and invariant under every linear isometry is unique -/
+theorem sphere_invariant_measure_unique {E : Type*} [NormedAddCommGroup E] [InnerProductSpace ℝ E]
+    [FiniteDimensional ℝ E] [MeasurableSpace E] [BorelSpace E] (μ ν : Measure E)
+    [IsProbabilityMeasure μ] [IsProbabilityMeasure ν]
+    (hμs : μ (Metric.sphere (0 : E) 1)ᶜ = 0) (hνs : ν (Metric.sphere (0 : E) 1)ᶜ = 0)
+    (hμ : ∀ f : E ≃ₗᵢ[ℝ] E, μ.map f = μ) (hν : ∀ f : E ≃ₗᵢ[ℝ] E, ν.map f = ν) : μ = ν :=
+  sphere_invariant_unique hμs hνs hμ hν
+
+/-- the uniform law on the sphere: `sphereUniform E` IS the normalised surface measure (Mathlib's `Measure.toSphere` of
+Lebesgue measure) pushed to the ambient space; it is a probability measure, carried by the unit sphere, and invariant
+under every linear isometry — so the hypotheses of `sphere_invariant_measure_unique` are satisfiable -/
+theorem surface_measure (d : ℕ) (hd : 0 < d) :
+    sphereUniform (EuclideanSpace ℝ (Fin d))
+      = (((volume : Measure (EuclideanSpace ℝ (Fin d))).toSphere Set.univ)⁻¹
+          • (volume : Measure (EuclideanSpace ℝ (Fin d))).toSphere).map Subtype.val ∧
+    IsProbabilityMeasure (sphereUniform (EuclideanSpace ℝ (Fin d))) ∧
+    sphereUniform (EuclideanSpace ℝ (Fin d)) (Metric.sphere (0 : EuclideanSpace ℝ (Fin d)) 1)ᶜ = 0 ∧
+    ∀ f : EuclideanSpace ℝ (Fin d) ≃ₗᵢ[ℝ] EuclideanSpace ℝ (Fin d),
+      (sphereUniform (EuclideanSpace ℝ (Fin d))).map f = sphereUniform (EuclideanSpace ℝ (Fin d)) := by
+  have : Nonempty (Fin d) := ⟨⟨0, hd⟩⟩
+  have : Nontrivial (EuclideanSpace ℝ (Fin d)) := inferInstance
+  exact ⟨rfl, isProbabilityMeasure_sphereUniform, sphereUniform_sphere, sphereUniform_map⟩
+
+/-- **the direction is uniform on the sphere**: the law of `x/‖x‖` for a standard Gaussian vector `x` (= `d` i.i.d.
+N(0,1) coordinates, `direction_iid_law`) is the normalised surface measure of the unit sphere -/
+theorem direction_uniform (d : ℕ) (hd : 0 < d) :
+    (stdGaussian (EuclideanSpace ℝ (Fin d))).map unitDir
+      = (((volume : Measure (EuclideanSpace ℝ (Fin d))).toSphere Set.univ)⁻¹
+          • (volume : Measure (EuclideanSpace ℝ (Fin d))).toSphere).map Subtype.val := by
+  have : Nonempty (Fin d) := ⟨⟨0, hd⟩⟩
+  have : Nontrivial (EuclideanSpace ℝ (Fin d)) := inferInstance
+  exact stdGaussian_dir_uniform
+
+/-- **pointwise bridge for the whole vector**: on `4·d` normal draws grouped in fours (`x i` = group `i`) and unit
+gammas `gs`, the model's noise vector `vecNoise scale normals gs` is the Euclidean vector
+`vecNorm scale gs • unitDir z`, `z i = half4 (x i)`, read by coordinates -/
+theorem noise_vector_model_bridge {d : ℕ} (scale : ℝ) (x : Fin d → ℝ × ℝ × ℝ × ℝ) (gs : List ℝ) :
+    vecNoise scale ((List.ofFn x).flatMap quad) gs
+      = List.ofFn (fun i => (vecNorm scale gs •
+          unitDir (WithLp.toLp 2 (fun j => half4 (x j)) : EuclideanSpace ℝ (Fin d))) i) :=
+  vecNoise_ofFn scale x gs
+
+/-- **the law of the noise vector `b`**, from the raw draws: `4·d` independent `normalvariate(0,1)` (grouped in fours)
+and, independently, four unit gammas `Gamma(d/4, 1)`.  The vector `vecNorm K.scale g • unitDir z` — which IS the model's
+`vecNoise` by `noise_vector_model_bridge` — has the law of `r • u` with `u` uniform on the unit sphere of `ℝ^d` and,
+independently, `r ~ Gamma(d, rate ε′/(2s))`: exactly the noise of CMS Algorithm 2 (density ∝ `exp(−ε′‖b‖/(2s))`), in both
+branches of the rule.  Independence of norm and direction is by construction (separate draws = product measure). -/
+theorem noise_vector_law (eps c s alpha : ℝ) (n : Nat) (d : ℕ) (he : 0 < eps) (hc : 0 ≤ c) (hs : 0 < s)
+    (ha : 0 < alpha) (hn : 0 < n) (hd : 0 < d) :
+    let K := vectorCalib eps c s alpha n
+    ((Measure.pi fun _ : Fin d =>
+        (gaussianReal 0 1).prod ((gaussianReal 0 1).prod ((gaussianReal 0 1).prod (gaussianReal 0 1)))).prod
+      ((gammaMeasure ((d : ℝ) / 4) 1).prod ((gammaMeasure ((d : ℝ) / 4) 1).prod
+        ((gammaMeasure ((d : ℝ) / 4) 1).prod (gammaMeasure ((d : ℝ) / 4) 1))))).map
+      (fun p : (Fin d → ℝ × ℝ × ℝ × ℝ) × ℝ × ℝ × ℝ × ℝ =>
+        vecNorm K.scale [p.2.1, p.2.2.1, p.2.2.2.1, p.2.2.2.2] •
+          unitDir (WithLp.toLp 2 (fun j => half4 (p.1 j)) : EuclideanSpace ℝ (Fin d)))
+      = ((sphereUniform (EuclideanSpace ℝ (Fin d))).prod (gammaMeasure (d : ℝ) (K.epsP / (2 * s)))).map
+          (fun q : EuclideanSpace ℝ (Fin d) × ℝ => q.2 • q.1) := by
+  intro K
+  obtain ⟨hscale, hrate⟩ := calib_scale_rate eps c s alpha n he hc hs ha hn
+  rw [← hrate]
+  exact noise_full_map d hd (d : ℝ) K.scale (by exact_mod_cast hd) hscale
+
+/-- non-vacuity: the hypotheses hold (fallback-branch parameters of §1, three coordinates) -/
+example := noise_vector_law (1 / 10) (1 / 4) 1 1 1 3 (by norm_num) (by norm_num) (by norm_num) (by norm_num)
+  (by norm_num) (by norm_num)
+
+/-- the same in every one-vs-rest problem of a fit (`dim = n_features (+1)`, `s = data_sensitivity`, `ε′` the fit's) -/
+theorem fit_noise_vector_law (eps C norm : ℝ) (k dim n : Nat) (ic : Bool) (he : 0 < eps) (hC : 0 < C)
+    (hnorm : 0 ≤ norm) (hk : 2 ≤ k) (hn : 0 < n) (hpos : ic = false → 0 < norm ∧ 0 < dim) :
+    let cs : CallSite ℝ := callSite eps C norm k dim n ic
+    let K := fitCalib eps C norm k dim n ic
+    ((Measure.pi fun _ : Fin cs.dim =>
+        (gaussianReal 0 1).prod ((gaussianReal 0 1).prod ((gaussianReal 0 1).prod (gaussianReal 0 1)))).prod
+      ((gammaMeasure ((cs.dim : ℝ) / 4) 1).prod ((gammaMeasure ((cs.dim : ℝ) / 4) 1).prod
+        ((gammaMeasure ((cs.dim : ℝ) / 4) 1).prod (gammaMeasure ((cs.dim : ℝ) / 4) 1))))).map
+      (fun p : (Fin cs.dim → ℝ × ℝ × ℝ × ℝ) × ℝ × ℝ × ℝ × ℝ =>
+        vecNorm K.scale [p.2.1, p.2.2.1, p.2.2.2.1, p.2.2.2.2] •
+          unitDir (WithLp.toLp 2 (fun j => half4 (p.1 j)) : EuclideanSpace ℝ (Fin cs.dim)))
+      = ((sphereUniform (EuclideanSpace ℝ (Fin cs.dim))).prod (gammaMeasure (cs.dim : ℝ) (K.epsP / (2 * cs.s)))).map
+          (fun q : EuclideanSpace ℝ (Fin cs.dim) × ℝ => q.2 • q.1) := by
+  intro cs K
+  obtain ⟨hek, hc, hs, hal, hd⟩ := call_site_positive eps C norm k dim n ic he hC hk hpos
+  exact noise_vector_law cs.eps cs.c cs.s cs.alpha cs.n cs.dim hek hc hs hal hn hd
+
+/-- non-vacuity, both intercept settings -/
+example := fit_noise_vector_law 1 1 1 2 3 10 true (by norm_num) (by norm_num) (by norm_num) (by norm_num)
+  (by norm_num) (by simp)
+example := fit_noise_vector_law 1 1 1 2 3 10 false (by norm_num) (by norm_num) (by norm_num) (by norm_num)
+  (by norm_num) (by simp)
 
 end DPL.C17
